@@ -255,9 +255,14 @@ func statusOfBranch(b *ssa.BasicBlock) (int64, bool) {
 }
 
 // ruleStatusTable checks, in handler fn, that each errors.Is/As test on the given sentinel leads to the expected status.
-func ruleStatusTable(p *Program, r *Reporter, rule string, fn *ssa.Function, want map[string]int64) {
+func ruleStatusTable(p *Program, r *Reporter, rule string, handler *ssa.Function, want map[string]int64) {
 	found := map[string]bool{}
-	for _, b := range fn.Blocks {
+	var blocks []*ssa.BasicBlock
+	for _, cf := range cluster(handler) {
+		blocks = append(blocks, cf.Blocks...)
+	}
+	for _, b := range blocks {
+		fn := b.Parent()
 		for _, in := range b.Instrs {
 			c, ok := in.(*ssa.Call)
 			if !ok || c.Call.StaticCallee() == nil {
@@ -293,6 +298,10 @@ func ruleStatusTable(p *Program, r *Reporter, rule string, fn *ssa.Function, wan
 					if st, ok := statusOfBranch(ifi.Block().Succs[0]); ok {
 						got = st
 						ok2 = st == exp
+					} else if st, idx, ok := statusReturned(ifi.Block().Succs[0]); ok && fn != handler {
+						// a helper of the handler returns the status: it must be the status the handler answers with
+						got = st
+						ok2 = st == exp && helperStatusIsAnswered(p, fn, idx)
 					}
 				}
 			}
@@ -300,10 +309,54 @@ func ruleStatusTable(p *Program, r *Reporter, rule string, fn *ssa.Function, wan
 				fmt.Sprintf("the branch for %s answers %d, expected %d", label, got, exp), nil)
 		}
 	}
+	fn := handler
 	for label := range want {
 		if !found[label] {
 			r.Violate(rule, shortFn(fn), "status:"+label, p.pos(fn.Pos()), "the handler no longer distinguishes "+label+" with errors.Is/As", nil)
 		}
 	}
 	_ = strings.Contains
+}
+
+// statusReturned: the block returns a constant integer (an HTTP status chosen by a helper); returns it and its result index.
+func statusReturned(b *ssa.BasicBlock) (int64, int, bool) {
+	ret, ok := b.Instrs[len(b.Instrs)-1].(*ssa.Return)
+	if !ok {
+		return 0, 0, false
+	}
+	for i, res := range ret.Results {
+		if k, ok := constInt(res); ok && k >= 100 && k <= 599 {
+			return k, i, true
+		}
+	}
+	return 0, 0, false
+}
+
+// helperStatusIsAnswered: result idx of helper is used, at its unique call site, as the status of http.Error / WriteHeader.
+func helperStatusIsAnswered(p *Program, helper *ssa.Function, idx int) bool {
+	site := uniqueCallSite(helper)
+	if site == nil {
+		return false
+	}
+	c, ok := site.(*ssa.Call)
+	if !ok {
+		return false
+	}
+	isResult := func(v ssa.Value) bool {
+		if ex, ok := v.(*ssa.Extract); ok && ex.Tuple == ssa.Value(c) && ex.Index == idx {
+			return true
+		}
+		return v == ssa.Value(c) && idx == 0
+	}
+	for _, b := range site.Parent().Blocks {
+		for _, in := range b.Instrs {
+			if hc, ok := isCallTo(in, "net/http.Error"); ok && isResult(hc.Call.Args[2]) {
+				return true
+			}
+			if wc, ok := in.(*ssa.Call); ok && wc.Call.IsInvoke() && wc.Call.Method.Name() == "WriteHeader" && len(wc.Call.Args) == 1 && isResult(wc.Call.Args[0]) {
+				return true
+			}
+		}
+	}
+	return false
 }
